@@ -1,4 +1,55 @@
-(* C09 - JSON serialization is lossless or loud, and policy-gated. *)
-From Fiddle Require Import PyBase PyText Serial Anchors.
+(* C09 - JSON serialization is lossless or loud, and policy-gated.
+   Statements only; proofs in theories/Serial_proofs.v and theories/Copy_proofs.v. *)
+From Fiddle Require Import PyBase PySlice Sig ArgStore PyCall PyText Heap Traverse Build_stmt
+  Traverse_proofs Copy Iso_proofs Copy_proofs Serial Serial_proofs Anchors.
+Open Scope N_scope.
 
-Example C09_placeholder : True. Proof. exact I. Qed.
+(* Bytes: every byte string survives the traverser's flatten / unflatten. *)
+Theorem C09_bytes_roundtrip : forall b : list N,
+  forallb (fun c => c <? 256) b = true -> bytes_of_str (latin1_decode b) = b.
+Proof. exact bytes_roundtrip. Qed.
+Print Assumptions C09_bytes_roundtrip.
+
+(* Why the codec was repaired: under raw_unicode_escape the six bytes  A  came back as "A". *)
+Theorem C09_old_codec_lossy :
+  forallb (fun c => c <? 256) lossy_witness = true /\
+  rue_decode (S (length lossy_witness)) lossy_witness = Some [65] /\
+  rue_encode [65] = [65] /\ rue_encode [65] <> lossy_witness.
+Proof. exact old_codec_lossy. Qed.
+Print Assumptions C09_old_codec_lossy.
+
+(* ... and was lossless only away from backslashes *)
+Theorem C09_old_codec_partial : forall b : list N,
+  forallb (fun c => negb (c =? ch_bslash)) b = true ->
+  forall fuel, (length b < fuel)%nat -> rue_decode fuel b = Some b.
+Proof. exact rue_decode_no_backslash. Qed.
+Print Assumptions C09_old_codec_partial.
+
+(* Policy: a symbol is imported only after allows_import approved it, and a value is returned only
+   after allows_value approved it; resolving a document's references imports nothing else. *)
+Theorem C09_policy_gate : forall allows_import importer allows_value syms vals imp,
+  resolve_all allows_import importer allows_value syms = (vals, imp) ->
+  (forall s, In s imp -> allows_import s = true /\ In s syms) /\
+  (forall vs, vals = Some vs ->
+     length vs = length syms /\
+     Forall2 (fun s v => allows_import s = true /\ importer s = Some v /\ allows_value v = true) syms vs).
+Proof. exact resolve_all_gate. Qed.
+Print Assumptions C09_policy_gate.
+
+(* Graph level: (de)serialization is a memoized copy through a table of objects (pickle = true:
+   every container is a new object).  The copy is total, leaves the input untouched, and is
+   isomorphic to it under the memo (types, leaves, symbols, tags, sharing; unset stays unset). *)
+Theorem C09_copy_total : forall e h r s res,
+  wf_b e h = true -> root_ok h r -> mrun e h (copy_node e true) r = (s, res) ->
+  exists r', res = inl r'.
+Proof. intros e h r s res. exact (deepcopy_total e true h r s res). Qed.
+Print Assumptions C09_copy_total.
+
+Theorem C09_roundtrip_graph : forall e h r s res,
+  wf_b e h = true -> root_ok h r -> mrun e h (copy_node e true) r = (s, res) ->
+  (forall i n, creach e h r i -> nth_error h i = Some n -> node_canonical e n) ->
+  forall r', res = inl r' ->
+    bij_wf (memo_bij (memo s)) /\ simulates h (out s) (memo_bij (memo s)) /\
+    rel_ref (memo_bij (memo s)) r r'.
+Proof. intros e h r s res. exact (deepcopy_faithful e true h r s res). Qed.
+Print Assumptions C09_roundtrip_graph.
